@@ -360,9 +360,12 @@ def _construct(fn, n):
             if is_method:
                 arr_args = n.args
             else:
-                if not n.args or not fn.tainted(n.args[0]):
+                if n.args and fn.tainted(n.args[0]):
+                    arr_args = n.args[1:]
+                elif not n.args and any(k.arg in ("a", "x", "arr", "array", "m") and fn.tainted(k.value) for k in n.keywords):
+                    arr_args = []           # the array handed by keyword (numpy.fft.rfft(a=..., axis=-1))
+                else:
                     return None
-                arr_args = n.args[1:]
             ax = None
             kws = []
             for k in n.keywords:
